@@ -273,10 +273,109 @@ def r5_table_derivations(ctx):
     ctx.floor("named public derivations checked", n, 20)
 
 
+_MEMO_DECOS = ("lru_cache", "functools.lru_cache", "cache", "functools.cache", "cached_property", "functools.cached_property")
+
+
+def _is_memoised(fi) -> bool:
+    for d in getattr(fi.node, "decorator_list", []):
+        f = d.func if isinstance(d, ast.Call) else d
+        if u(f) in _MEMO_DECOS:
+            return True
+    return False
+
+
+def _immutable_result(expr, fi) -> bool:
+    """Syntactically a value that cannot be written into: numbers, strings, tuples of such, sizes / lengths / counts."""
+    if isinstance(expr, ast.Constant):
+        return True
+    if isinstance(expr, ast.Tuple):
+        return all(_immutable_result(e, fi) for e in expr.elts)
+    if isinstance(expr, ast.Attribute) and expr.attr in ("size", "ndim", "shape", "dtype", "itemsize", "nbytes"):
+        return True
+    if isinstance(expr, ast.Call) and u(expr.func) in ("len", "int", "float", "str", "bool", "tuple", "frozenset", "hash", "repr", "sum", "max", "min", "type"):
+        return True
+    if isinstance(expr, ast.Call) and isinstance(expr.func, ast.Attribute) and expr.func.attr in ("count_entries", "__len__", "item", "tobytes"):
+        return True
+    if isinstance(expr, (ast.Compare, ast.BoolOp)):
+        return True
+    return False
+
+
+def r6_memoised_results(ctx):
+    """A memoised function hands the SAME object to every caller with equal arguments.  If that object is a mutable array and reaches code that may
+    write into it (it is returned further, stored, or written in place), one caller's write shows up in another caller's 'new' result.  Every
+    memoised function must therefore return an immutable value, or its result must be used only as an operand of expressions that build new values."""
+    ix = ctx.index
+    n = 0
+    memo = [fi for fi in ix.all_functions() if not isinstance(fi.node, ast.Lambda) and _is_memoised(fi)]
+    mutable = []
+    for fi in memo:
+        n += 1
+        rets = [r.value for r in body_walk(fi.node) if isinstance(r, ast.Return) and r.value is not None]
+        if rets and all(_immutable_result(r, fi) for r in rets):
+            ctx.ob(fi.where, f"memoised `{fi.qualname}` returns an immutable value", True, "; ".join(u(r) for r in rets), key=f"C20-R6|immutable|{fi.module.name}|{fi.qualname}")
+        else:
+            mutable.append(fi)
+    names = {fi.qualname.split(".")[-1] for fi in mutable}
+    hits = {nm: [] for nm in names}
+    for gi in ix.all_functions():
+        if isinstance(gi.node, ast.Lambda) or not any(nm in gi.module.source for nm in names):
+            continue
+        found = [x for x in body_walk(gi.node) if (isinstance(x, ast.Attribute) and x.attr in names and isinstance(x.ctx, ast.Load)) or
+                 (isinstance(x, ast.Name) and x.id in names and isinstance(x.ctx, ast.Load))]
+        if not found:
+            continue
+        par = {}
+        for a in ast.walk(gi.node):
+            for c in ast.iter_child_nodes(a):
+                par[c] = a
+        for x in found:
+            hits[x.attr if isinstance(x, ast.Attribute) else x.id].append((gi, x, par))
+    for fi in mutable:
+        name = fi.qualname.split(".")[-1]
+        is_prop = any(u(d) in ("property", "cached_property") or u(d).endswith("cached_property") for d in fi.node.decorator_list)
+        escapes, uses = [], 0
+        for gi, attr, par in hits[name]:
+            if gi is fi:
+                continue
+            hit = attr
+            if not is_prop:
+                up0 = par.get(attr)
+                if not (isinstance(up0, ast.Call) and up0.func is attr):
+                    continue
+                hit = up0
+            uses += 1
+            up = par.get(hit)
+            where = f"{gi.module.relpath}:{hit.lineno} {gi.qualname}"
+            if isinstance(up, ast.Return) or (isinstance(up, ast.Tuple) and isinstance(par.get(up), ast.Return)):
+                escapes.append(f"{where}: returned")
+            elif isinstance(up, ast.Assign) and up.value is hit:
+                tgt = up.targets[0]
+                if isinstance(tgt, ast.Name):
+                    v = tgt.id
+                    for y in body_walk(gi.node):
+                        if isinstance(y, ast.AugAssign) and u(y.target) == v:
+                            escapes.append(f"{where}: `{v}` is then written in place ({u(y)})")
+                        elif isinstance(y, ast.Assign) and isinstance(y.targets[0], ast.Subscript) and u(y.targets[0].value) == v:
+                            escapes.append(f"{where}: `{v}` is then written in place ({u(y)})")
+                        elif isinstance(y, ast.Return) and y.value is not None and u(y.value) == v:
+                            escapes.append(f"{where}: `{v}` is then returned")
+                else:
+                    escapes.append(f"{where}: stored in {u(tgt)}")
+            elif isinstance(up, ast.AugAssign) and up.target is hit:
+                escapes.append(f"{where}: written in place")
+            elif isinstance(up, ast.Subscript) and up.value is hit and isinstance(up.ctx, ast.Store):
+                escapes.append(f"{where}: written in place")
+        ctx.ob(fi.where, f"memoised `{fi.qualname}` returns a mutable object: its result is only ever used as an operand (never returned further, stored, or written in place), "
+               "so no caller can change what another caller gets", not escapes, "; ".join(escapes[:4]) or f"{uses} uses, all operands", key=f"C20-R6|shared-result|{fi.module.name}|{fi.qualname}")
+    ctx.floor("memoised functions examined", n, 7)
+
+
 RULES = [
     ("C20-R1", r1_param_mutators),
     ("C20-R2", r2_private_mutator_call_sites),
     ("C20-R3", r3_self_array_writes),
     ("C20-R4", r4_cow_views_and_dead_writers),
     ("C20-R5", r5_table_derivations),
+    ("C20-R6", r6_memoised_results),
 ]
